@@ -132,6 +132,12 @@ pub fn configs_c03(tier: Tier) -> Vec<Box<dyn Config>> {
     let h = LayHarness::<S6>::new(Coll::Set, Plan::Zero, if q { 4 } else { 6 }, false);
     let l = format!("{}-release", h.label());
     v.push(Box::new(BfsConfig::new(l, h, Limits { max_wall_s: 60.0, ..Default::default() })));
+    // elements aligned more strictly than a control group: the block goes back with the alignment it was requested with
+    for coll in [Coll::Set, Coll::Map, Coll::Table] {
+        let h = LayHarness::<A64>::new(coll, Plan::Zero, if q { 3 } else { 5 }, false);
+        let l = format!("{}-release", h.label());
+        v.push(Box::new(BfsConfig::new(l, h, Limits { max_wall_s: 60.0, ..Default::default() })));
+    }
     // zero-sized elements with a construction / clone / drop ledger
     v.push(Box::new(ZstTables { tier }));
     // parallel drains hand every element to exactly one consumer or drop it exactly once (details: C19)
